@@ -43,7 +43,7 @@ AssocInit(a) ==
      ks |-> IF Assocs[a].ka >= 0 THEN Assocs[a].ka ELSE NoTime,
      lastUnsol |-> [has |-> FALSE, seq |-> 0, hash |-> 0, iin |-> {}, con |-> FALSE]]
 
-NoCur == [a |-> 0, task |-> [t |-> "none"], seq |-> 0, first |-> TRUE, deadline |-> NoTime, fc0 |-> 0]
+NoCur == [a |-> 0, task |-> [t |-> "none"], seq |-> 0, first |-> TRUE, deadline |-> NoTime, fc0 |-> 0, t0 |-> 0]
 
 Init0 ==
     [pc |-> "Down",          \* Down | Sched | Await | Idle | Dead
@@ -94,6 +94,9 @@ FcOf(task) ==
       [] task.t = "time" -> (CASE task.step = "record" -> 24 [] task.step = "measure" -> 23 [] OTHER -> 2)
       [] task.t = "restart" -> 13 [] task.t = "empty" -> 20 [] OTHER -> 0
 UserId(task) == IF "id" \in DOMAIN task THEN task.id ELSE 0
+\* completion of a queued / running user task with a task error: the promise of a time synchronisation request
+\* carries a TimeSyncError wrapping the task error
+DoneErr(s, task, err) == Done(s, UserId(task), IF task.t = "time" THEN "Task:" \o err ELSE err)
 
 -----------------------------------------------------------------------------
 (* exponential back-off of the automatic tasks *)
@@ -135,7 +138,8 @@ TaskError(s, a, task, err) ==
                       PollDone(s, a, task.pid)
                 [] task.t = "time" /\ task.id = 0 -> AutoFailure(s, a, "time")
                 [] OTHER -> s
-    IN Done(s1, UserId(task), err)
+       \* the promise of a time synchronisation request carries a TimeSyncError wrapping the task error
+    IN DoneErr(s1, task, err)
 
 \* run_task epilogue: notify_task_fail and conversion of run-ending errors
 Fail(s, a, task, err) ==
@@ -204,13 +208,13 @@ StartTask(s, a, task) ==
         s2 == Cb(s1, MkCb(s.now, "ai", "task_start", <<Addr(a), FcOf(task), seq>>, TaskName(task)))
     IN IF task.t = "link"
          THEN [s0 EXCEPT !.pc = "Await", !.cur = [a |-> a, task |-> task, seq |-> 0, first |-> TRUE,
-                                                  deadline |-> s.now + Assocs[a].rt, fc0 |-> 0],
+                                                  deadline |-> s.now + Assocs[a].rt, fc0 |-> 0, t0 |-> s.now],
                          !.otx = Append(@, [t |-> s.now, fc |-> -1, seq |-> 0, fir |-> TRUE, fin |-> TRUE,
                                             con |-> FALSE, uns |-> FALSE, dst |-> Addr(a), what |-> task])]
          ELSE [Tx(s2, a, FcOf(task), seq, FALSE, task) EXCEPT
                     !.pc = "Await",
                     !.cur = [a |-> a, task |-> task, seq |-> seq, first |-> TRUE, deadline |-> s.now + Assocs[a].rt,
-                             fc0 |-> FcOf(task)]]
+                             fc0 |-> FcOf(task), t0 |-> s.now]]
 
 \* MasterSession::run: pick the next task or decide how long to idle
 Schedule(s) ==
@@ -276,6 +280,25 @@ HandleNonRead(s, a, task, f) ==
       [] task.t = "restart" ->
             IF f.body = "g52" THEN [st |-> Done(s, task.id, "ok"), next |-> [t |-> "none"], err |-> ""]
             ELSE [st |-> Done(s, task.id, "UnexpectedResponseHeaders"), next |-> [t |-> "none"], err |-> "UnexpectedResponseHeaders"]
+      [] task.t = "time" ->
+            \* master/tasks/time.rs: non-LAN = DELAY_MEASURE (reply g52v2) then WRITE g50v1; LAN = RECORD_CURRENT_TIME (empty
+            \* reply) then WRITE g50v3; the write's reply must be empty and must not show NEED_TIME any more.  The reply
+            \* class "g52" reports a processing delay of 10 ms: more than the round trip = BadOutstationTimeDelay.
+            \* The promise of a user request gets the time-sync error, the task itself always UnexpectedResponseHeaders
+            LET failed(res) == [st |-> IF task.id = 0 THEN AutoFailure(s, a, "time") ELSE Done(s, task.id, res),
+                                next |-> [t |-> "none"], err |-> "UnexpectedResponseHeaders"]
+                fine == [st |-> IF task.id = 0 THEN AutoDone(s, a, "time") ELSE Done(s, task.id, "ok"), next |-> [t |-> "none"], err |-> ""]
+            IN CASE task.step = "measure" ->
+                       IF f.body \notin {"g52", "g52z"} THEN failed("Task:UnexpectedResponseHeaders")
+                       ELSE IF f.body = "g52" /\ s.now - s.cur.t0 < 10 THEN failed("BadOutstationTimeDelay")
+                       ELSE [st |-> s, next |-> [task EXCEPT !.step = "writeabs"], err |-> ""]
+                 [] task.step = "record" ->
+                       IF f.body # "empty" THEN failed("Task:UnexpectedResponseHeaders")
+                       ELSE [st |-> s, next |-> [task EXCEPT !.step = "writelast"], err |-> ""]
+                 [] OTHER ->
+                       IF f.body # "empty" THEN failed("Task:UnexpectedResponseHeaders")
+                       ELSE IF "time" \in f.iin THEN failed("StillNeedsTime")
+                       ELSE fine
       [] task.t = "empty" ->
             IF f.body = "empty" THEN [st |-> Done(s, task.id, "ok"), next |-> [t |-> "none"], err |-> ""]
             ELSE [st |-> Done(s, task.id, "UnexpectedResponseHeaders"), next |-> [t |-> "none"], err |-> "UnexpectedResponseHeaders"]
@@ -337,7 +360,7 @@ AwaitRx(s) ==
                 LET seq == h.st.A[a].seq
                 IN [Tx([h.st EXCEPT !.A[a].seq = S16(@ + 1)], a, FcOf(h.next), seq, FALSE, h.next) EXCEPT
                         !.cur = [a |-> a, task |-> h.next, seq |-> seq, first |-> TRUE,
-                                 deadline |-> s.now + Assocs[a].rt, fc0 |-> s.cur.fc0]]
+                                 deadline |-> s.now + Assocs[a].rt, fc0 |-> s.cur.fc0, t0 |-> s.now]]
            ELSE [Success(h.st, a, task, s.cur.seq) EXCEPT !.pc = "Sched", !.cur = NoCur]
 
 AwaitTimeout(s) ==
@@ -360,9 +383,9 @@ IdleRx(s) ==
 ProcMsg(s, m) ==
     CASE m.k = "task" ->
             LET a == m.a IN
-            IF a = 0 \/ ~s.A[a].exists THEN Done(s, UserId(m.task), "NoSuchAssociation")
-            ELSE IF s.pc = "Down" THEN Done(s, UserId(m.task), "NoConnection")
-            ELSE IF Len(s.A[a].queue) >= Assocs[a].maxq THEN Done(s, UserId(m.task), "TooManyRequests")
+            IF a = 0 \/ ~s.A[a].exists THEN DoneErr(s, m.task, "NoSuchAssociation")
+            ELSE IF s.pc = "Down" THEN DoneErr(s, m.task, "NoConnection")
+            ELSE IF Len(s.A[a].queue) >= Assocs[a].maxq THEN DoneErr(s, m.task, "TooManyRequests")
             ELSE [s EXCEPT !.A[a].queue = Append(@, m.task)]
       [] m.k = "poll_add" ->
             Done([s EXCEPT !.A[m.a].polls = Append(@, [id |-> m.pid, period |-> m.period, next |-> s.now + m.period])],
@@ -378,7 +401,7 @@ ProcMsg(s, m) ==
             \* AssociationMap::remove drops the association together with its queued tasks: their promises
             \* are dropped, which the callers see as a shutdown
             LET q == s.A[m.a].queue
-                s1 == FoldLeft(LAMBDA acc, t : Done(acc, UserId(t), "Shutdown"), s, q)
+                s1 == FoldLeft(LAMBDA acc, t : DoneErr(acc, t, "Shutdown"), s, q)
             IN Done([s1 EXCEPT !.A[m.a].exists = FALSE, !.A[m.a].queue = <<>>], m.id, "ok")
       [] OTHER -> s
 
@@ -386,7 +409,7 @@ ProcMsg(s, m) ==
 ResetAll(s, err) ==
     LET one(acc, a) ==
             LET q == acc.A[a].queue
-                s1 == FoldLeft(LAMBDA x, t : Done(x, UserId(t), err), acc, q)
+                s1 == FoldLeft(LAMBDA x, t : DoneErr(x, t, err), acc, q)
             IN [s1 EXCEPT !.A[a].queue = <<>>,
                           !.A[a].auto = [clr |-> AutoIdle, dis |-> AutoPending, integ |-> AutoPending,
                                          time |-> AutoIdle, en |-> AutoPending, evscan |-> AutoIdle],
